@@ -130,6 +130,17 @@ class Desc:
         return d
 
 
+def kind_swapped_primer(d):
+    """a schema in which every struct name of `d` is an enum and every enum name a struct, each of them used as a field type:
+    parsed earlier in the same process, nothing of it may stick to the names"""
+    pr = ['version: "3"']
+    names = [("struct", n) for n, _ in d.structs] + [("enum", n) for n, _ in d.enums]
+    for k, n in names:
+        pr.append(f"enum {n} {{ PA = 0, PB = 1, }}" if k == "struct" else f"struct {n} {{ pz @ 0: u8, }}")
+    pr.append("struct PrimerUser {" + " ".join(f"pf{j} @ {j}: Optional[[{n}, 2]], pg{j} @ {100 + j}: {n}," for j, (_, n) in enumerate(names)) + " }")
+    return "\n".join(pr) + "\n"
+
+
 def gen_enums(rng, n, big=False):
     enums = []
     for k in range(n):
